@@ -331,3 +331,103 @@ Qed.
 Lemma line_of_direct prog direct epos : ~ In SEndProg prog -> (length prog <= epos)%nat ->
   line_of (prog ++ SEndProg :: direct) epos = 65535.
 Proof. intros. unfold line_of. apply line_of_from_direct; assumption. Qed.
+
+(* ------------------------------------------------------------------ what a stop leaves behind *)
+
+(* run_st is run, plus the state *)
+Lemma run_st_run code : forall fuel st, (let '(t, o, _) := run_st code fuel st in (t, o)) = run code fuel st.
+Proof.
+  induction fuel as [|f IH]; intros st; simpl; [reflexivity|].
+  destruct (step code st) as [st' out|o]; [|reflexivity].
+  specialize (IH st'). destruct (run_st code f st') as [[t o] s]. destruct (run code f st').
+  inversion IH; subst. reflexivity.
+Qed.
+
+(* statements end the program with an error message by themselves only at the end of the program inside a
+   handler (No RESUME) and for ON ERROR GOTO 0 inside a handler; everything else raises *)
+Definition no_stop (r : pres) : Prop := match r with PHalt (Stopped _ _) => False | _ => True end.
+
+Lemma pwith_val_ns st epos r k : (forall z, no_stop (k z)) -> no_stop (pwith_val st epos r k).
+Proof. intros H. destruct r; simpl; auto. Qed.
+Lemma pwith_int_ns st i r k : (forall z, no_stop (k z)) -> no_stop (pwith_int st i r k).
+Proof. intros H. unfold pwith_int. apply pwith_val_ns. intros z. destruct (in16 z); simpl; auto. Qed.
+Lemma pjump_ns code st i n k : (forall j, no_stop (k j)) -> no_stop (pjump code st i n k).
+Proof. intros H. unfold pjump. destruct (find_line code n); simpl; auto. Qed.
+Lemma pcheck_while_ns code st w : no_stop (pcheck_while code st w).
+Proof.
+  unfold pcheck_while. destruct (nth_error code w) as [[]|]; simpl; auto.
+  apply pwith_val_ns. intros z. destruct (z =? 0); simpl; auto. destruct (whiles st) as [|[? ?] ?]; simpl; auto.
+Qed.
+
+Lemma pstep_stop_shape code st c l : pstep code st = PHalt (Stopped c l) ->
+  nth_error code (pc st) = Some SEndProg \/ exists n, nth_error code (pc st) = Some (SOnErrorGoto n).
+Proof.
+  intros H. destruct (nth_error code (pc st)) as [s|] eqn:E.
+  - assert (Hns : (s = SEndProg \/ exists n, s = SOnErrorGoto n) \/ no_stop (pstep code st)).
+    { unfold pstep. rewrite E. cbv zeta.
+      destruct s; try (left; left; reflexivity); try (left; right; eexists; reflexivity); right;
+        try exact I.
+      - apply pwith_val_ns; intros; exact I.
+      - apply pwith_val_ns; intros z; destruct (in16 z); exact I.
+      - apply pwith_int_ns; intros va. apply pwith_int_ns; intros vb. apply pwith_int_ns; intros vs.
+        destruct (scan_next _ _ _) as [[j k]|]; [|exact I]. destruct (negb _); [exact I|].
+        destruct (if flow_for_dir _ then _ else _); [|exact I].
+        destruct (next_vars _ _ _ _); exact I.
+      - destruct (next_vars _ _ _ _); exact I.
+      - destruct (scan_wend _ _ _); [apply pcheck_while_ns | exact I].
+      - destruct (pop_to_wend _ _) as [[|[w e] rest]|]; try exact I. apply pcheck_while_ns.
+      - apply pjump_ns; intros; exact I.
+      - destruct (gosubs st); [exact I|]. destruct n; [apply pjump_ns; intros; exact I | exact I].
+      - apply pjump_ns; intros; exact I.
+      - apply pwith_val_ns; intros z. destruct (negb _).
+        + destruct j; [apply pjump_ns; intros; exact I | exact I].
+        + destruct (find_else_from _ _ _) as [k [n|]|k]; try exact I. apply pjump_ns; intros; exact I.
+      - apply pwith_int_ns; intros z. destruct (negb _); [exact I|]. destruct (_ && _); [|exact I].
+        apply pjump_ns; intros; exact I.
+      - apply pwith_int_ns; intros z. destruct (negb _); exact I.
+      - destruct (resume_at (ds st)); [|exact I]. destruct r; try exact I. apply pjump_ns; intros; exact I. }
+    destruct Hns as [[-> | [n ->]] | Hns]; [left; reflexivity | right; exists n; reflexivity |].
+    rewrite H in Hns. destruct Hns.
+  - unfold pstep in H. rewrite E in H. discriminate.
+Qed.
+
+(* whatever error message ended the program - an error without handler, an error inside the handler, No RESUME,
+   ON ERROR GOTO 0 inside the handler, RESUME without error - the interpreter is not "handling an error" any
+   more when the next command starts *)
+Theorem stop_leaves_handler_mode code st c l :
+  step code st = Halt (Stopped c l) -> handling (ds (after_halt code st)) = false.
+Proof.
+  intros H. unfold after_halt. rewrite step_resolve in H.
+  destruct (pstep code st) as [st' out|o|st' c' epos] eqn:Ep; simpl in H.
+  - discriminate.
+  - inversion H; subst. destruct (pstep_stop_shape code st c l Ep) as [E | [n E]]; rewrite E.
+    + unfold pstep in Ep. rewrite E in Ep. cbv zeta in Ep. destruct (resume_at (ds st)); [reflexivity | discriminate].
+    + reflexivity.
+  - reflexivity.
+Qed.
+
+(* an error that was not trapped leaves ERR and ERL of that error, the handler line and the statement to resume
+   as they were, variables and stacks as the raise left them *)
+Theorem untrapped_error_state code st st' c epos :
+  pstep code st = PRaise st' c epos ->
+  after_halt code st = stopped_state st' c (line_of code epos).
+Proof. intros H. unfold after_halt. rewrite H. reflexivity. Qed.
+
+(* END forgets the error being handled *)
+Theorem end_leaves_handler_mode code st : nth_error code (pc st) = Some SEnd ->
+  handling (ds (after_halt code st)) = false /\ resume_at (ds (after_halt code st)) = None.
+Proof.
+  intros H. unfold after_halt, pstep. rewrite H. cbv zeta. rewrite ?H. split; reflexivity.
+Qed.
+
+(* hence: the next error that is raised with a handler line set is trapped again (C21_trap applies), as long
+   as the statements in between leave the mode registers alone (pstep_flags: all but RESUME do) *)
+Theorem trapped_again code st c l st2 st2' c2 epos2 h :
+  step code st = Halt (Stopped c l) ->
+  handling (ds st2') = handling (ds (after_halt code st)) ->
+  pstep code st2 = PRaise st2' c2 epos2 -> onerr (ds st2') <> 0 -> find_line code (onerr (ds st2')) = Some h ->
+  step code st2 = Go (handler_state st2' (pc st2) c2 (line_of code epos2) h) [].
+Proof.
+  intros Hs Hh Hp Ho Hf. apply raise_traps; auto.
+  rewrite Hh. exact (stop_leaves_handler_mode code st c l Hs).
+Qed.
